@@ -240,13 +240,9 @@ def main():
             # replayers living in sibling modules (they register into this module's table)
             import importlib
             sys.modules.setdefault('replay', sys.modules['__main__'])
-            for m in ('replay_transform', 'replay_io', 'replay_misc'):
-                try:
-                    importlib.import_module(m)
-                except ImportError as e:
-                    if m in str(e):
-                        continue
-                    raise
+            import glob
+            for p_ in sorted(glob.glob(os.path.join(HERE, 'replay_*.py'))):
+                importlib.import_module(os.path.basename(p_)[:-3])
         for m in list(sys.modules.values()):
             al = getattr(m, 'REPLAYERS_ALIAS', None)
             if al and target in al:
